@@ -1,6 +1,6 @@
 (* C13 — subscribers get each emitted event exactly once, in order, only while subscribed.
    Property theorems only; the model is theories/Signals.v, proofs theories/SignalsProofs.v. *)
-From QV Require Import Signals SignalsProofs SignalsInv3 SignalsMain SignalsQuiesce.
+From QV Require Import Signals SignalsProofs SignalsInv3 SignalsMain SignalsQuiesce SignalsRaw SignalsRawProofs.
 Local Open Scope N_scope.
 
 (* Reading of the statement.  A run is any sequence of labels accepted by [run] from [init]: every
@@ -82,6 +82,39 @@ Theorem C13_refuted_uid_global_relock :
     s_got x = [] /\ s_queue x = [] /\ inflight st (s_conn x) (s_sig x) = [].
 Proof. exact refuted_uid_global_relock. Qed.
 Print Assumptions C13_refuted_uid_global_relock.
+
+(* Registrations whose ids are chosen by the caller (SignalsRaw.v: the table operations of the model
+   above with any ids; [rclean]: ids compared per connection, a refused duplicate leaves the table
+   alone).  "One subscriber leaving does not disturb the others", at the level of registrations: a
+   registerEvent that was acknowledged is sent every later emission of its signal until an
+   unregisterEvent for its own (connection, id) is processed, whatever else is registered, refused or
+   removed meanwhile — with the same id for another signal, the same id on another connection, ... *)
+Theorem C13_holds_raw_registration_kept : forall g, rclean g -> forall pre post c m sig uid p,
+  snd (raw_step g (raw_run g rinit pre) (RReg c m sig uid)) = OAck ->
+  (forall s, ~ In (RUnreg c s uid) post) ->
+  exists l, snd (raw_step g (raw_run g rinit (pre ++ RReg c m sig uid :: post)) (REmit sig p)) = OSent l /\ In (c, m) l.
+Proof. exact raw_acked_receives. Qed.
+Print Assumptions C13_holds_raw_registration_kept.
+
+(* after an acknowledged unregisterEvent the table has no entry of that (connection, id): later emissions send nothing to it *)
+Theorem C13_holds_raw_unregistered : forall g, rclean g -> forall os c s uid,
+  snd (raw_step g (raw_run g rinit os) (RUnreg c s uid)) = OAck ->
+  forall u, In u (r_table (fst (raw_step g (raw_run g rinit os) (RUnreg c s uid)))) -> is_user c uid u = false.
+Proof. exact raw_removed. Qed.
+Print Assumptions C13_holds_raw_unregistered.
+
+(* a refused registerEvent / unregisterEvent changes nothing *)
+Theorem C13_holds_raw_refused_no_effect : forall g, rclean g -> forall st o,
+  snd (raw_step g st o) = ORefused -> fst (raw_step g st o) = st.
+Proof. exact raw_refused. Qed.
+Print Assumptions C13_holds_raw_refused_no_effect.
+
+(* the table operation of SignalsRaw.v is the one the mailbox goroutine of the full model performs *)
+Theorem C13_raw_is_mailbox_step : forall g st c f rest st',
+  up st c = f :: rest -> step g st (LMbox c) = Some st' ->
+  table st' = r_table (fst (raw_step g {| r_table := table st; r_dead := false |} (op_of c f))).
+Proof. exact step_mbox_is_raw_step. Qed.
+Print Assumptions C13_raw_is_mailbox_step.
 
 Example C13_nonvacuous : exists st, run cfg0 init tr_ex = Some st /\ overflow st = false /\
   map (fun x => (s_pc x, s_got x, s_win x)) (subs st) =
